@@ -51,12 +51,12 @@ Section Sound.
 
   Let rp := p_rp P.
   Definition bound_of (r : string) : option Z :=
-    match assoc r (rp_unrev (p_rp P)) with Some i => Some i | None =>
     match assoc r (rp_groups (p_rp P)) with Some (i, _) => Some i | None =>
-    match assoc r (rp_revealed (p_rp P)) with Some (i, _, _) => Some i | None => None end end end.
+    match assoc r (rp_revealed (p_rp P)) with Some (i, _, _) => Some i | None =>
+    assoc r (rp_unrev (p_rp P)) end end.
 
   Lemma received_assoc a u p : received P = ROk (a, u, p) ->
-    (forall r, assoc r (u ++ a) = match bound_of r with Some i => nthZ (p_ids P) i | None => None end) /\
+    (forall r, assoc r (a ++ u) = match bound_of r with Some i => nthZ (p_ids P) i | None => None end) /\
     (forall r, assoc r p = match assoc r (rp_preds (p_rp P)) with Some i => nthZ (p_ids P) i | None => None end).
   Proof.
     unfold received, get_ident. intros H.
@@ -73,18 +73,17 @@ Section Sound.
     specialize (Apr ltac:(intros k i y Hy; apply bind_ok in Hy as (id & Hid & Hy); apply of_opt_ok in Hid; inversion Hy; subst; auto)).
     split; [|exact Apr].
     intros r. rewrite !assoc_app, Aun, Arg, Arv. unfold bound_of.
-    destruct (assoc r (rp_unrev (p_rp P))) as [i|] eqn:E1.
-    - (* the unrevealed entry resolved, since the whole map did *)
-      destruct (nthZ (p_ids P) i) eqn:E; [reflexivity|].
-      exfalso. apply mapR_ok in Hun. apply assoc_In in E1.
-      clear -Hun E1 E. induction Hun as [|x y l1 l2 Hxy HF IH]; [destruct E1|]. destruct E1 as [->|E1]; [|exact (IH E1)].
+    destruct (assoc r (rp_groups (p_rp P))) as [[i g]|] eqn:E2.
+    - cbn [fst]. destruct (nthZ (p_ids P) i) eqn:E; [reflexivity|].
+      exfalso. apply mapR_ok in Hrg. apply assoc_In in E2.
+      clear -Hrg E2 E. induction Hrg as [|x y l1 l2 Hxy HF IH]; [destruct E2|]. destruct E2 as [->|E2]; [|exact (IH E2)].
       cbn in Hxy. unfold get_ident in Hxy. rewrite E in Hxy. discriminate.
-    - destruct (assoc r (rp_groups (p_rp P))) as [[i g]|] eqn:E2.
+    - destruct (assoc r (rp_revealed (p_rp P))) as [[[i raw] enc]|] eqn:E3.
       + cbn [fst]. destruct (nthZ (p_ids P) i) eqn:E; [reflexivity|].
-        exfalso. apply mapR_ok in Hrg. apply assoc_In in E2.
-        clear -Hrg E2 E. induction Hrg as [|x y l1 l2 Hxy HF IH]; [destruct E2|]. destruct E2 as [->|E2]; [|exact (IH E2)].
+        exfalso. apply mapR_ok in Hrv. apply assoc_In in E3.
+        clear -Hrv E3 E. induction Hrv as [|x y l1 l2 Hxy HF IH]; [destruct E3|]. destruct E3 as [->|E3]; [|exact (IH E3)].
         cbn in Hxy. unfold get_ident in Hxy. rewrite E in Hxy. discriminate.
-      + destruct (assoc r (rp_revealed (p_rp P))) as [[[i raw] enc]|]; reflexivity.
+      + destruct (assoc r (rp_unrev (p_rp P))) as [i|]; reflexivity.
   Qed.
 
   (* the filter the verifier evaluates on IS the filter of the credential that signed the bound sub-proof *)
